@@ -366,6 +366,16 @@ pub fn floor_c06(ctx: &Ctx) -> Vec<(String, bool)> {
 /// Canonical form of an image for comparison under C07's two relaxations
 /// (FIR entry order; NACK word choice). Non-tileable images are returned as is.
 pub fn canon(img: &[u8]) -> Vec<u8> {
+    canon_with(img, true)
+}
+
+/// FIR entries may be written in any order (the builder keeps them in a hash map): canonical
+/// form that only sorts FIR entries.
+pub fn canon_fir_only(img: &[u8]) -> Vec<u8> {
+    canon_with(img, false)
+}
+
+fn canon_with(img: &[u8], nack: bool) -> Vec<u8> {
     let Some(tiles) = dec::tiling(img) else { return img.to_vec() };
     let mut out = Vec::with_capacity(img.len());
     for (a, b) in tiles {
@@ -379,7 +389,7 @@ pub fn canon(img: &[u8]) -> Vec<u8> {
                 out.extend_from_slice(e);
             }
             out.extend_from_slice(&t[t.len() - pad..]);
-        } else if t.len() >= 12 && t[1] == 205 && t[0] & 0x1f == 1 && pad + 12 <= t.len() {
+        } else if nack && t.len() >= 12 && t[1] == 205 && t[0] & 0x1f == 1 && pad + 12 <= t.len() {
             out.extend_from_slice(&t[..12]);
             let fci = &t[12..t.len() - pad];
             let words = fci.len() / 4;
